@@ -540,4 +540,32 @@ Proof.
   destruct (router_lookup pats p); split; try discriminate; contradiction.
 Qed.
 
+(* a parameter-free key - is_param_key false, whatever ':' or '*' it holds inside a segment - is all
+   literal: it has no placeholder and only the path equal to it instantiates it. Hence a reported
+   match of such a key is for the path equal to the key and carries no parameter. *)
+Lemma placeholders_lits k : placeholders (map SLit k) = 0.
+Proof. induction k as [|c k IH]; cbn [map placeholders]; auto. Qed.
+
+Lemma subst_lits k : forall vs p, subst (map SLit k) vs = Some p -> p = k /\ vs = [].
+Proof.
+  induction k as [|c k IH]; intros vs p H; cbn [map subst] in H.
+  - destruct vs; [inversion H; auto|discriminate].
+  - destruct (subst (map SLit k) vs) as [r|] eqn:E; [|discriminate]. inversion H; subst.
+    destruct (IH _ _ E) as [-> ->]. auto.
+Qed.
+
+Lemma static_key_shape k : is_param_key k = false -> shape_of k = map SLit k /\ names_of k = [].
+Proof. intros H. unfold shape_of, names_of, key_shape. rewrite H. auto. Qed.
+
+Theorem router_static_only_itself pats p v ps : wf_patset pats = true -> router_lookup pats p = Found v ps ->
+  exists k, In (k, v) pats /\ map fst ps = names_of k /\ subst (shape_of k) (map snd ps) = Some p /\
+    (is_param_key k = false -> p = k /\ ps = []).
+Proof.
+  intros Hwf Hl. destruct (router_sound_params pats p v ps Hwf Hl) as (k & Hin & Hn & Hlen & Hs & _).
+  exists k. split; [exact Hin|]. split; [exact Hn|]. split; [exact Hs|].
+  intros Hst. destruct (static_key_shape k Hst) as [E _]. rewrite E in Hs, Hlen.
+  rewrite placeholders_lits in Hlen. destruct (subst_lits _ _ _ Hs) as [-> _].
+  split; [reflexivity|]. destruct ps; [reflexivity|discriminate].
+Qed.
+
 End Table.
